@@ -59,7 +59,9 @@ class Gamma:
             T0 = 0
         elif tuple(coll) == (0, 0):
             # far from zero: straddle 2^31 or sit just below 2^40 seconds
-            T0 = [(2 ** 31) // P - 2, (2 ** 40) // P - self.cmax - 2, 47320757][variant % 3]
+            # far from zero: straddle 2^31, sit just below 2^40 seconds, or far beyond 2^53 (integer arithmetic must stay exact)
+            T0 = [(2 ** 31) // P - 2, (2 ** 40) // P - self.cmax - 2, 47320757, (2 ** 62) // P - self.cmax - 2,
+                  (2 ** 31) // P - 2, 2 ** 56 + 12345][variant % 6]
         else:
             a, b = coll
             cands = self.coll[alg]["pairs"].get(str(b - a), [])
@@ -83,7 +85,21 @@ class Gamma:
         return s
 
 
-def real_token(s, tok, form):
+def lookalikes(token):
+    """texts that are NOT a code (a sign, a digit separator, a radix prefix, an exponent) although a lenient number parser
+    would read the value of `token` from them; same number of characters where possible"""
+    out = ["+" + token, token[:-1] + "_", token[:3] + "_" + token[3:], token[:2] + "." + token[3:], "0x" + token[2:], token[:-2] + "e0"]
+    if token[0] == "0":
+        out += ["+" + token[1:]] * 3
+    for i in range(1, len(token) - 1):
+        if token[i] == "0":
+            out += [token[:i] + "_" + token[i + 1:]] * 2
+    return out
+
+
+def real_token(s, tok, form, near=None, rnd=None):
+    if tok == NONDIGIT and near is not None and rnd.random() < .6:
+        return rnd.choice(lookalikes(near))
     if tok == NONE_TOK:
         t = s["none_tok"]
     elif tok == SHORT:
@@ -110,7 +126,7 @@ def real_token(s, tok, form):
 
 
 def real_time(secs, form):
-    if form == "float":
+    if form == "float" and abs(secs) < 2 ** 50:      # (a float cannot carry larger times exactly: those are given as integers)
         return float(secs) + 0.25 if secs >= 0 else float(secs)
     if form == "naive" and 0 <= secs < 2 ** 37:
         return dt.datetime(1970, 1, 1) + dt.timedelta(seconds=secs, microseconds=300000)
@@ -156,7 +172,7 @@ def replay_transition(chk, G: Gamma, ev, rnd):
             return
     tform = rnd.choice(["str", "str", "int", "bytes", "spaced", "dashed"])
     tmform = rnd.choice(["int", "int", "float", "naive", "aware"])
-    token = real_token(s, ev["tok"], tform)
+    token = real_token(s, ev["tok"], tform, s["codes"].get((ev["t"] + ev["skew"]) // ev["p"]), rnd)
     totp = TOTP(key=s["key"], format="raw", alg=s["alg"], digits=6, period=P)
     tm = real_time(t_real, tmform)
     if rnd.random() < .3:
@@ -212,7 +228,7 @@ def record_sequences(rnd, ntraces, nsteps):
         key = bytes(rnd.randrange(256) for _ in range(rnd.choice([10, 16, 20, 32, 64])))
         P = rnd.choice([30, 30, 60, 17, 1, 300])
         digits = rnd.choice([6, 6, 7, 8])
-        T0 = rnd.choice([0, 3, rnd.randrange(10 ** 6, 10 ** 8), (2 ** 31) // P - 5, (2 ** 40) // P - 500])
+        T0 = rnd.choice([0, 3, rnd.randrange(10 ** 6, 10 ** 8), (2 ** 31) // P - 5, (2 ** 40) // P - 500, (2 ** 62) // P - 500, 2 ** 56 + 54321])
         span = 120          # counters T0-span .. T0+span get a code
         base = -T0 if T0 < span else -span - 1
         codes = {c: int(hotp_ref(key, alg, T0 + c, digits)) for c in range(max(-span, -T0), span + 1)}
@@ -247,6 +263,9 @@ def record_sequences(rnd, ntraces, nsteps):
                 txt = [ord(ch) for ch in token]
                 if rnd.random() < .3:
                     token = token[:3] + rnd.choice([" ", "-"]) + token[3:]
+                    txt = [ord(ch) for ch in token]
+                elif rnd.random() < .25:
+                    token = rnd.choice(lookalikes(token))          # not a code, whatever value a number parser reads from it
                     txt = [ord(ch) for ch in token]
                 elif rnd.random() < .3:
                     token = int(token)
